@@ -114,9 +114,22 @@ func newRelayInst(allowNoBid bool, buffer int64) *relayInst {
 	r.ds.SetNowFunc(clock)
 	r.hub = crossbar.New()
 	http.DefaultServeMux = http.NewServeMux() // crossbar registers "/" on the default mux
-	relayPort := freePort()
-	r.accessPort = freePort()
-	r.wsPort = freePort()
+	// three DISTINCT ports: the wrapper keeps its own listener open from the start; the two ports the relay
+	// binds by number are picked while all three listeners are held, so they cannot coincide with each other
+	wl, err := net.Listen("tcp", "127.0.0.1:0")
+	if err != nil {
+		panic(err)
+	}
+	l1, err1 := net.Listen("tcp", "127.0.0.1:0")
+	l2, err2 := net.Listen("tcp", "127.0.0.1:0")
+	if err1 != nil || err2 != nil {
+		panic("no free port")
+	}
+	relayPort := l1.Addr().(*net.TCPAddr).Port
+	r.accessPort = l2.Addr().(*net.TCPAddr).Port
+	r.wsPort = wl.Addr().(*net.TCPAddr).Port
+	l1.Close()
+	l2.Close()
 	var wg sync.WaitGroup
 	wg.Add(2)
 	go crossbar.Crossbar(crossbar.Config{Listen: relayPort, Audience: relayTarget, BufferSize: buffer, CodeStore: r.cs,
@@ -134,8 +147,7 @@ func newRelayInst(allowNoBid bool, buffer int64) *relayInst {
 		default:
 		}
 	})}
-	go r.wrap.ListenAndServe()
-	waitPort(r.wsPort)
+	go r.wrap.Serve(wl)
 	// wait until the stats feeder has registered (first member)
 	for i := 0; i < 400 && len(r.hub.VMembers()) == 0; i++ {
 		time.Sleep(2 * time.Millisecond)
